@@ -501,7 +501,11 @@ class Session:
                     bad("write-after-connection-lost", "callRemote after connectionLost wrote %d bytes" % c["wrote"], nonce=nonce)
                 if c["ra"]:
                     if c["returned"] != "deferred" or c.get("fired_on_return") != 1 or len(c["fired"]) != 1:
-                        bad("call-after-loss-not-failed-immediately", "callRemote after connectionLost did not return an already-failed Deferred", nonce=nonce, returned=c["returned"], fired=len(c["fired"]))
+                        if c["parent"] is not None and c["issued_in"] == "lost":
+                            bad("reentrant-call-during-connection-loss-not-failed", "a callRemote issued from the errback of a call that is being failed for the connection loss "
+                                "was accepted instead of returning an already-failed Deferred (fired %d times by the end)" % len(c["fired"]), nonce=nonce, parent=c["parent"], returned=c["returned"])
+                        else:
+                            bad("call-after-loss-not-failed-immediately", "callRemote after connectionLost did not return an already-failed Deferred", nonce=nonce, returned=c["returned"], fired=len(c["fired"]))
                     elif c["fired"][0][0] != "err" or c["fired"][0][1].value is not self.lost_reason[n].value:
                         bad("call-after-loss-wrong-failure", "callRemote after connectionLost failed with something else than the loss reason", nonce=nonce, got=repr(c["fired"][0][1]))
                     ctx.count("deferreds_checked")
